@@ -148,6 +148,16 @@ class Collector:
         return dict(results=self.results, functions=self.functions, trusted=sorted(self.trusted))
 
 
+def guarded(fn, *a, **k):
+    """run a concrete check of the real code; an exception raised by the code under test is a failure
+    of the contract (with the traceback as detail), not a checker crash"""
+    try:
+        return fn(*a, **k)
+    except Exception as e:
+        return dict(reproduced=True, cases=0, exception=f'{type(e).__name__}: {e}', tb=traceback.format_exc()[-1200:],
+                    how=f'{fn.__module__}.{fn.__name__}{a!r}')
+
+
 def _run_task(arg):
     modname, fname, kwargs = arg
     t0 = time.time()
